@@ -120,4 +120,44 @@ Section GovExcl.
     apply (execute_operator_proposal_spec H) in F. cbv zeta in F. cbn [w_gov] in F.
     destruct F as (_ & _ & _ & _ & A & _). rewrite A. congruence.
   Qed.
+  (* ---------- operator approvals (C12) ---------- *)
+  Notation appr w h := (getN (gv_approvals (w_gov w)) h).
+  Notation opflight w h := (getN (gv_op_flight (w_gov w)) h).
+
+  (* an approval changes only through a governance command (execute), its consumption by executeOperatorProposal, or the callback of a failed operator dispatch *)
+  Theorem approval_changes_only_by w o h :
+    appr (fst (step w o)) h <> appr w h ->
+    match o with VExecute _ _ _ _ _ | VExecOperator _ _ _ _ | VCallback _ _ => True | _ => False end.
+  Proof.
+    pose proof (tables_frame H verify w o) as TF.
+    destruct o as [go|c chain id src payload|c t cd v|c t cd v|c r a|c a|c tok nonce|self id ok rets|self id]; try (intros _; exact I);
+      try (unfold tables in TF; inversion TF as [[A B C D]]; rewrite C; congruence).
+    cbn [vstep]. destruct (run_tx w c (fun w1 => execute_proposal H true w1 c t cd v)) as [w' out] eqn:R. cbn [fst].
+    destruct (vo_ok out) eqn:O.
+    2:{ apply run_tx_fail in R; [|exact O]. subst. congruence. }
+    apply run_tx_some in R as (l1 & ev & _ & F & _); [|exact O].
+    apply (execute_proposal_spec H) in F. cbv zeta in F. cbn [w_gov] in F.
+    destruct F as (_ & _ & _ & _ & A & _). rewrite A. congruence.
+  Qed.
+
+  (* what a callback can do to an approval: only give the approval back to a failed operator dispatch that is still marked in flight
+     (a cancel-approval command in between clears the marker, and then nothing comes back) *)
+  Theorem callback_restores_approval_only_in_flight w self id h :
+    appr (fst (step w (VCallback self id))) h <> appr w h ->
+    exists p rets, find_pending id (w_pend w) = Some p /\ gp_stage p = AwaitCallback false rets /\ gp_kind p = POperator /\ gp_hash p = h /\
+                   opflight w h <> 0 /\ appr (fst (step w (VCallback self id))) h = 1.
+  Proof.
+    cbn [vstep]. destruct (find_pending id (w_pend w)) as [p|] eqn:F; [|cbn [fst]; congruence].
+    destruct (gp_stage p) as [|ok rets] eqn:S; [cbn [fst]; congruence|].
+    destruct (callback true self (w_gov w) p ok rets) as [g' ev] eqn:CB. cbn [fst w_gov].
+    apply callback_spec in CB. cbv zeta in CB. destruct CB as (_ & _ & M).
+    destruct (gp_kind p) eqn:K.
+    - destruct M as (A & _). rewrite A. congruence.
+    - destruct M as (_ & _ & _ & Oth & Et).
+      destruct (bytes_eqb h (gp_hash p)) eqn:E.
+      + apply bytes_eqb_eq in E. subst h. rewrite Et. destruct ok; [congruence|].
+        destruct (N.eqb_spec (opflight w (gp_hash p)) 0) as [Z|NZ]; [congruence|].
+        intros _. exists p, rets. repeat (split; try reflexivity; try assumption).
+      + apply bytes_eqb_neq in E. destruct (Oth h E) as (A & _). congruence.
+  Qed.
 End GovExcl.
